@@ -78,6 +78,27 @@ Proof.
     clear -Hs. rewrite <- (map_length full em). induction Hs; cbn; congruence.
 Qed.
 
+(* The output-file contract: after a run with -o the WHOLE content of the path is the concatenation of to_write of
+   exactly the emitted messages -- independent of what the path held before (absent, empty, junk, a longer or shorter
+   DLT file, the output of an earlier run with another window / filter / sort flag); in particular writing the same
+   path twice leaves the result of the second run only.  Without -o, and when no input file can be opened, the path
+   is not touched.  ([path_after]: Convert/Select.v, File::create truncates.) *)
+Theorem C14_output_path_independent_of_prior_content :
+  forall {byte} (to_write : cmsg -> list byte) sorter args o res (prior prior' : option (list byte)),
+    Convert sorter args o res ->
+    (forall r em, res = Some r -> emitted o r em ->
+       o_file o = true ->
+       path_after to_write prior res = Some (concat (map to_write em)) /\
+       path_after to_write prior res = path_after to_write prior' res) /\
+    (o_file o = false \/ res = None -> path_after to_write prior res = prior).
+Proof.
+  intros byte tw sorter args o res prior prior' C. split.
+  - intros r em -> [_ [H2 _]] Ho. rewrite Ho in H2. unfold path_after. rewrite H2. cbn. auto.
+  - intros [Ho| ->]; [|reflexivity]. inversion C as [|merged sorted Hne Hm Hs]; subst; [reflexivity|].
+    destruct (t4_spec o merged (filter_stage (o_filters o) sorted)) as [_ [H2 _]].
+    unfold path_after. rewrite H2, Ho. reflexivity.
+Qed.
+
 (* what [selected] says, in words of the property: inside the window, lifecycle chosen (or no --lcs), and
    (no enabled positive filter or one matches) and no enabled negative filter matches *)
 Theorem C14_selected_meaning : forall o x,
@@ -195,7 +216,7 @@ Definition nv_files : list file := map mk_file
    (1, 2, [(13, 1, 1000030000000, 0, true, false, [true; true]); (14, 1, 1000031000000, 1000000, true, false, [true; false])]);
    (2, 2, [(20, 2, 1000001500000, 0, true, false, [true; true]); (21, 2, 1000030500000, 29000000, true, false, [true; true])])].
 Definition nv_args : list arg := mk_args nv_files [Some 1; Some 2; Some 0; Some 1].
-Definition nv_opts : opts := mk_opts (1, 5, [2], [(0, true); (1, false)], false, 3, true).
+Definition nv_opts : opts := mk_opts (1, 5, [2], [(0, true); (1, false)], false, 3, true, Some [7; 7; 7]).
 Example C14_nonvacuous :
   InRange nv_args /\ DistinctFirst nv_args /\ NoCrossStreamTies nv_args /\
   exists r, Convert (fun l out => Permutation out l) nv_args nv_opts (Some r) /\
@@ -222,6 +243,7 @@ Print Assumptions C14_convert_selects_exactly.
 Print Assumptions C14_no_selection_shows_input.
 Print Assumptions C14_written_file_is_selected.
 Print Assumptions C14_written_file_rereads.
+Print Assumptions C14_output_path_independent_of_prior_content.
 Print Assumptions C14_selected_meaning.
 Print Assumptions C14_input_is_the_files.
 Print Assumptions C14_streams_files.
